@@ -354,13 +354,13 @@ Fixpoint eval (r : env) (e : expr) : option (list value) :=
   | EOffset e n => match eval r e with Some l => Some (skipn (N.to_nat n) l) | None => None end
   | ELimitX e l =>
       match eval r e, eval r l with
-      | Some le, Some [VInt z] => Some (firstn (Z.to_nat z) le)
+      | Some le, Some [VInt z] => if Z.ltb z 0 then None else Some (firstn (Z.to_nat z) le)
       | Some le, Some _ => Some le
       | _, _ => None
       end
   | EOffsetX e l =>
       match eval r e, eval r l with
-      | Some le, Some [VInt z] => Some (skipn (Z.to_nat z) le)
+      | Some le, Some [VInt z] => if Z.ltb z 0 then None else Some (skipn (Z.to_nat z) le)
       | Some le, Some _ => Some le
       | _, _ => None
       end
@@ -408,8 +408,16 @@ Definition ptr_okb (d : db) (s : schema) (pi : N * pinfo) : bool :=
 Fixpoint nodupN (l : list N) : bool :=
   match l with [] => true | x :: tl => negb (existsb (N.eqb x) tl) && nodupN tl end.
 
+(* stored values belong to a pointer of the schema and to an object of its source type *)
+Definition vals_keys_okb (s : schema) (d : db) : bool :=
+  forallb (fun kv => let '((o, p), _) := kv in
+                     match find_ptr s p with
+                     | Some i => existsb (N.eqb o) (objs_of d (p_src i))
+                     | None => false
+                     end) (d_vals d).
+
 Definition db_okb (s : schema) (d : db) : bool :=
-  nodupN (map snd (d_objs d)) && nodupN (map fst s) && forallb (ptr_okb d s) s.
+  nodupN (map snd (d_objs d)) && nodupN (map fst s) && forallb (ptr_okb d s) s && vals_keys_okb s d.
 
 (* ------------------------------------------------------------------ inference: results *)
 Inductive ierr := IInternal | ISingleton | IDistinct | IRequired | ISingle.
@@ -491,10 +499,15 @@ Fixpoint ty_eqb (a b : ty) : bool :=
   end.
 Definition is_obj_ty (t : ty) : bool := match t with TObj _ => true | _ => false end.
 (* common type of UNION / ?? / IF operands *)
-Definition join_ty (a b : ty) : ty :=
+Fixpoint join_ty (a b : ty) : ty :=
   match a, b with
   | TObj x, TObj y => if keys_eqb x y then a else TObj (merge_keys x y)
-  | _, _ => a
+  | TPair a1 a2, TPair b1 b2 => TPair (join_ty a1 b1) (join_ty a2 b2)
+  | TArr a1, TArr b1 => TArr (join_ty a1 b1)
+  | TInt, TInt => TInt
+  | TStr, TStr => TStr
+  | TBool, TBool => TBool
+  | _, _ => TUnknown
   end.
 (* the view type derived by binder x from t *)
 Definition view_ty (x : N) (t : ty) : ty :=
@@ -510,8 +523,7 @@ Definition types_disjoint (a b : ty) : bool :=
   match a, b with
   | TObj [x], TObj [y] => negb (key_prefix x y || key_prefix y x)
   | TObj x, TObj y => negb (keys_eqb x y)
-  | TObj _, _ => true
-  | _, _ => false
+  | _, _ => false     (* a non-object operand: the real code's downcast would fail (ill-typed) *)
   end.
 
 Definition ptr_ty (s : schema) (p : N) : ty :=
@@ -544,7 +556,7 @@ Fixpoint ty_of (g : ienv) (e : expr) : ty :=
   | EPtr _ p => ptr_ty sch p
   | EBack _ _ t => TObj [[t]]
   | ETup a b => TPair (ty_of g a) (ty_of g b)
-  | EArr a _ => TArr (ty_of g a)
+  | EArr a b => TArr (join_ty (ty_of g a) (ty_of g b))
   | EProj e i => match ty_of g e with TPair a b => if i then b else a | _ => TUnknown end
   | ECall1 f a =>
       match f with
@@ -993,8 +1005,13 @@ Definition run_infer (e : expr) : report :=
      TF9  UNION: operand types deemed disjoint although they share a base type
      TFor a FOR result classified UNIQUE through disjoint_union (sound instances exist:
           body = iterator; covered by the monitors only)
-     TFX  disjoint_union reached through a tuple element *)
-Inductive tag := TF1 | TF2 | TF3 | TF4 | TF5 | TF6 | TF9 | TFor | TFX.
+     TFX  disjoint_union reached through a tuple element; UNION of two non-empty container
+          (tuple) operands, whose result keeps only the last operand's per-element information
+     TCast a cast of a multi set classified UNIQUE because its operand is (true of <str>int64;
+          the proofs do not cover the injectivity of casts)
+     TIll the term is ill-typed in a way the real compiler rejects (pointer of another type's
+          object; UNION of tuples deemed type-disjoint): outside "queries the compiler accepts" *)
+Inductive tag := TF1 | TF2 | TF3 | TF4 | TF5 | TF6 | TF9 | TFor | TFX | TCast | TIll.
 
 Fixpoint mentions (x : N) (e : expr) : bool :=
   match e with
@@ -1018,6 +1035,13 @@ Definition base_overlap (a b : ty) : bool :=
   end.
 
 Definition is_var (e : expr) : bool := match e with EVar _ => true | _ => false end.
+Definition is_cont (m : minfo) : bool := match m with MCont _ _ _ _ => true | _ => false end.
+(* every component of the source type is the pointer's source type *)
+Definition ptr_src_ok (t : ty) (p : N) : bool :=
+  match t, find_ptr sch p with
+  | TObj ks, Some i => forallb (fun k => match k with b :: _ => N.eqb b (p_src i) | [] => false end) ks
+  | _, _ => false
+  end.
 Definition ptr_multi (p : N) : bool := match find_ptr sch p with Some i => p_multi i | None => true end.
 
 (* mult of a sub-result under di, after the singleton override; DUPLICATE when it fails *)
@@ -1043,20 +1067,29 @@ Definition filter_tags (alias : bool) (x : N) (ts : ty) (di : option N) (subj : 
         | _ => []
         end)) oats.
 
-Fixpoint tags (g : ienv) (di : option N) (e : expr) : list tag :=
+(* a reference to a bound variable re-infers the binding expression under the
+   distinct_iterator in force at the reference: its tags are those of that re-inference *)
+Definition tenv := list (N * (option N -> list tag)).
+Fixpoint tlookup (t : tenv) (x : N) : option (option N -> list tag) :=
+  match t with [] => None | (y, f) :: tl => if N.eqb y x then Some f else tlookup tl x end.
+
+Fixpoint tags (g : ienv) (tg : tenv) (di : option N) (e : expr) : list tag :=
   match e with
-  | ELit _ | EEmpty _ | ERoot _ | EVar _ => []
+  | ELit _ | EEmpty _ | ERoot _ => []
+  | EVar x => match tlookup tg x with Some f => f di | None => [] end
   | EPtr e' p =>
-      tags g di e'
+      tags g tg di e'
+      ++ (if ptr_src_ok (ty_of g e') p then [] else [TIll])
       ++ (if negb (is_link sch p) && ptr_excl p && single_key (ty_of g e')
-             && is_dup (mult_at (infer g e') di) then [TF4] else [])
+             && negb (is_uniq (mult_at (infer g e') di) || is_empty_m (mult_at (infer g e') di))
+          then [TF4] else [])
       ++ (if root_is e' di && (is_link sch p || (ptr_excl p && single_key (ty_of g e')))
              && negb (is_var e' && ptr_excl p) then [TF1] else [])
   | EBack e' p _ =>
-      tags g di e' ++ (if root_is e' di && negb (is_var e' && negb (ptr_multi p)) then [TF1] else [])
-  | ETup a b | EArr a b | ECall2 _ a b | ECoal a b => tags g di a ++ tags g di b
+      tags g tg di e' ++ (if root_is e' di && negb (is_var e' && negb (ptr_multi p)) then [TF1] else [])
+  | ETup a b | EArr a b | ECall2 _ a b | ECoal a b => tags g tg di a ++ tags g tg di b
   | EProj e' i =>
-      tags g di e'
+      tags g tg di e'
       ++ (match mult_at (infer g e') di with
           | MCont _ _ e0 e1 =>
               let pm := if i then e1 else e0 in
@@ -1064,44 +1097,58 @@ Fixpoint tags (g : ienv) (di : option N) (e : expr) : list tag :=
               ++ (if root_is e' di && negb (is_dup pm) && negb (is_var e') then [TF1] else [])
           | _ => []
           end)
-  | ECall1 _ a | EDistinct a | ESel a | ELimit a _ | EOffset a _ => tags g di a
+  | ECall1 f a =>
+      tags g tg di a
+      ++ (match f with
+          | PToStr => if card_is_multi (card_at (infer g a))
+                         && negb (match mult_at (infer g a) di with
+                                  | MPlain o _ _ => negb (mult_eqb o M_UNIQUE)
+                                  | MCont _ _ _ _ => false end)
+                      then [TCast] else []
+          | _ => []
+          end)
+  | EDistinct a | ESel a | ELimit a _ | EOffset a _ => tags g tg di a
   | EUnion a b =>
       let am := mult_at (infer g a) di in let bm := mult_at (infer g b) di in
       let ta := ty_of g a in let tb := ty_of g b in
       let dj := types_disjoint ta tb in
-      tags g di a ++ tags g di b
+      tags g tg di a ++ tags g tg di b
       ++ (if dj && base_overlap ta tb && is_uniq am && is_uniq bm then [TF9] else [])
+      ++ (if is_uniq am && is_uniq bm && (is_cont am || is_cont bm) then [TFX] else [])
       ++ (if is_uniq am && is_uniq bm && mi_dis bm && ((negb dj && mi_dis am) || (dj && negb (mi_dis am)))
           then [TF2] else [])
-  | EIf a c b => tags g di a ++ tags g di c ++ tags g di b
-  | ELimitX a l | EOffsetX a l => tags g di a ++ tags g di l
+  | EIf a c b => tags g tg di a ++ tags g tg di c ++ tags g tg di b
+  | ELimitX a l | EOffsetX a l => tags g tg di a ++ tags g tg di l
   | EFilter alias x s p =>
       let rs := infer g s in
       let ts := if alias then view_ty x (ty_of g s) else ty_of g s in
       let g' := (x, bind_var ts (card_at rs) (match rs with Ok (_, m, _) => m | Err e => fun _ => Err e end)) :: g in
+      let tg' := (x, fun di0 => tags g tg di0 s) :: tg in
       let oats := flat_map (orient x (is_obj_ty ts)) (atoms_at (infer g' p)) in
-      tags g di s ++ tags g None s ++ tags g' di p ++ tags g' None p
+      tags g tg di s ++ tags g tg None s ++ tags g' tg' di p ++ tags g' tg' None p
       ++ filter_tags alias x ts di (mult_at rs di) oats
   | EFor x s b =>
       let rs := infer g s in
       let g' := (x, bind_var (view_ty x (ty_of g s)) (card_at rs)
                              (match rs with Ok (_, m, _) => m | Err e => fun _ => Err e end)) :: g in
+      let tg' := (x, fun di0 => tags g tg di0 s) :: tg in
       let itm := mult_at rs di in
       let di' := if is_the_DUPLICATE itm then di else match di with None => Some x | Some _ => None end in
       let rm := mult_at (infer g' b) di' in
-      tags g di s ++ tags g' di' b
-      ++ (if negb (is_dup itm) && mi_dis rm && is_uniq rm then [TFor] else [])
+      tags g tg di s ++ tags g' tg' di' b
+      ++ (if negb (is_dup itm) && mi_dis rm && (negb (is_empty_m rm) || is_cont rm) then [TFor] else [])
   | EShape x s els =>
       let rs := infer g s in
       let g' := (x, bind_var (view_ty x (ty_of g s)) (card_at rs)
                              (match rs with Ok (_, m, _) => m | Err e => fun _ => Err e end)) :: g in
-      tags g di s ++ tags_els g' di els
+      let tg' := (x, fun di0 => tags g tg di0 s) :: tg in
+      tags g tg di s ++ tags_els g' tg' di els
   end
-with tags_els (g : ienv) (di : option N) (els : shape_els) : list tag :=
+with tags_els (g : ienv) (tg : tenv) (di : option N) (els : shape_els) : list tag :=
   match els with
   | SNil => []
-  | SCons _ _ e tl => tags g di e ++ tags_els g di tl
+  | SCons _ _ e tl => tags g tg di e ++ tags_els g tg di tl
   end.
 
-Definition run_tags (e : expr) : list tag := tags [] None e.
+Definition run_tags (e : expr) : list tag := tags [] [] None e.
 End Infer.
